@@ -338,6 +338,58 @@ def vmNe (tbl : Table α) (a b : Quantity α) : Bool := !qeq tbl a b
 def toBase (tbl : Table α) (q : Quantity α) : Quantity α :=
   ⟨mul q.value (factorOf tbl q.unit), baseRep tbl q.unit, true⟩
 
+/-- `Quantity::checked_power` with the exponent already turned into a rational by
+`Rational::from_f64` (external crate; the harness passes the rational the real code obtained) -/
+def checkedPower (a : Quantity α) (r : Rat) : Except QErr (Quantity α) :=
+  if r < 0 && a.isZero then .error .divZero
+  else .ok ⟨rpow a.value r, Unit.power a.unit r, true⟩
+
+/-- `Quantity::checked_div` -/
+def checkedDiv (a b : Quantity α) : Except QErr (Quantity α) :=
+  if b.isZero then .error .divZero else .ok (qdiv a b)
+
+/-- expression trees over numbers, units with prefixes, `+ - * /`, negation and rational powers -/
+inductive QExpr (α : Type) where
+  | num (v : α)
+  | unit (f : Factor)
+  | neg (a : QExpr α)
+  | add (a b : QExpr α)
+  | sub (a b : QExpr α)
+  | mul (a b : QExpr α)
+  | div (a b : QExpr α)
+  | pow (a : QExpr α) (r : Rat)
+deriving Repr
+
+/-- evaluation as the VM does it (`Op::Add .. Op::Power`; units are constants of value 1) -/
+def evalQ (tbl : Table α) : QExpr α → Except QErr (Quantity α)
+  | .num v => .ok ⟨v, [], true⟩
+  | .unit f => .ok ⟨one, [f], true⟩
+  | .neg a => (evalQ tbl a).map Quantity.neg
+  | .add a b =>
+    match evalQ tbl a, evalQ tbl b with
+    | .ok x, .ok y => qadd tbl x y
+    | .error e, _ => .error e
+    | _, .error e => .error e
+  | .sub a b =>
+    match evalQ tbl a, evalQ tbl b with
+    | .ok x, .ok y => qsub tbl x y
+    | .error e, _ => .error e
+    | _, .error e => .error e
+  | .mul a b =>
+    match evalQ tbl a, evalQ tbl b with
+    | .ok x, .ok y => .ok (qmul x y)
+    | .error e, _ => .error e
+    | _, .error e => .error e
+  | .div a b =>
+    match evalQ tbl a, evalQ tbl b with
+    | .ok x, .ok y => checkedDiv x y
+    | .error e, _ => .error e
+    | _, .error e => .error e
+  | .pow a r =>
+    match evalQ tbl a with
+    | .ok x => checkedPower x r
+    | .error e => .error e
+
 end qty
 
 end NumbatModel.Qty
